@@ -262,7 +262,7 @@ NL = 30
 TEMPS = {
     'Isothermal': dict(T=1234.0),
     'Guillot2010': dict(T_irr=1400.0, kappa_irr=0.02, kappa_v1=0.004, kappa_v2=0.006, alpha=0.4, T_int=800.0),
-    'NPoint': dict(T_surface=1600.0, T_top=700.0, temperature_points=[1200.0], pressure_points=[1e3], smoothing_window=5),
+    'NPoint': dict(T_surface=1600.0, T_top=700.0, temperature_points=[1200.0], pressure_points=[1e3], smoothing_window=5, limit_slope=5000.0),
     'Rodgers2000': dict(temperature_layers=list(np.linspace(1500.0, 600.0, NL)), correlation_length=4.0),
 }
 GASES = {
@@ -304,7 +304,7 @@ def build_model(combo, classes):
         if base not in classes:
             raise KeyError(base)
         return classes[base][1]
-    chem = K('TaurexChemistry')(fill_gases=['H2', 'He'], ratio=0.2)
+    chem = K('TaurexChemistry')(fill_gases=['H2', 'He'], ratio=0.2, base_metallicty=0.02)
     m1, m2 = ('CH4', 'H2O') if combo['gas2'] == 'PowerGas/auto' else ('H2O', 'CH4')   # 'auto' coefficients exist for H2O only
     chem.addGas(K(combo['gas1'])(molecule_name=m1, **GASES[combo['gas1']]))
     chem.addGas(K(combo['gas2'])(molecule_name=m2, **GASES[combo['gas2']]))
@@ -318,11 +318,17 @@ def build_model(combo, classes):
     return model
 
 
-def rec_summary(rec, classes):
-    """Recorded constructor calls -> {class name[:molecule]: kwargs} for component classes."""
+def component_ids(model):
+    objs = [model, model._chemistry, model._temperature_profile, model._pressure_profile, model._planet, model._star]
+    objs += list(getattr(model._chemistry, '_gases', [])) + list(model.contribution_list)
+    return {id(o) for o in objs if o is not None}
+
+
+def rec_summary(rec, classes, ids):
+    """Recorded constructor calls of the model's own components -> {class name[:molecule]: kwargs}."""
     out = {}
-    for cname, kw, tname in rec:
-        if cname != tname or cname not in classes or classes[cname][0] not in ('temperature', 'chemistry', 'gas', 'pressure', 'planet', 'star', 'model', 'contribution'):
+    for cname, kw, tname, oid in rec:
+        if cname != tname or oid not in ids or cname not in classes:
             continue
         tag = cname + (':' + str(kw.get('molecule_name')) if classes[cname][0] == 'gas' else '')
         out[tag] = {k: v for k, v in kw.items() if k not in ('planet', 'star', 'chemistry', 'temperature_profile', 'pressure_profile')
@@ -381,7 +387,7 @@ def run_model_roundtrips(ctx, combos, tmp, classes):
         except KeyError as ex:
             ctx.verdict('ModelBuilds', False, cls='class:%s' % ex.args[0], detail='component class %s is not discoverable' % ex.args[0], vector=vec)
             continue
-        built = rec_summary(list(FX._REC), classes)
+        built = rec_summary(list(FX._REC), classes, component_ids(model))
         wn, spec = model.model()[:2]
         try:
             with HDF5Output(path) as o:
@@ -402,7 +408,7 @@ def run_model_roundtrips(ctx, combos, tmp, classes):
         except Exception as ex:
             ctx.verdict('ModelReloads', False, cls='reload:%s' % tag.split('|')[1], detail='taurex_hdf5_to_model raised %s: %s (%s)' % (type(ex).__name__, ex, tag), vector=vec)
             continue
-        reloaded = rec_summary(list(FX._REC), classes)
+        reloaded = rec_summary(list(FX._REC), classes, component_ids(again))
         ctx.verdict('SameTypes', sorted(built) == sorted(reloaded) and
                     sorted(type(c).__name__ for c in model.contribution_list) == sorted(type(c).__name__ for c in again.contribution_list),
                     cls='types', detail='built %s, reloaded %s' % (sorted(built), sorted(reloaded)), vector=vec)
